@@ -361,6 +361,77 @@ func contendedBatch(c *Ctx, r *Rng, kind string, round, micro int) {
 	storeOp(c, "st.dump", map[string]string{})
 }
 
+// gcChurn: expiry passes (with a cutoff that expires nobody) run while workers empty and re-create their own
+// swarms. Workers own disjoint swarms and the passes remove nothing, so every interleaving is equivalent to
+// "worker 0's program, worker 1's program, …, the passes": that order is emitted, with the concurrently
+// observed results, and the final state must be the model's (every swarm present with its peer).
+func gcChurn(c *Ctx, r *Rng, round int) {
+	n := []int{1, 2, 4}[r.Intn(3)]
+	storeOp(c, "st.reset", map[string]string{"n": strconv.Itoa(n), "kind": "memory", "instances": "1"})
+	t0 := int64(1700000000e9) + int64(round)*1e9
+	storeOp(c, "st.clock", map[string]string{"t": strconv.FormatInt(t0, 10)})
+	const workers, swarms, rounds = 4, 24, 12
+	type own struct{ ih, pk string }
+	owned := make([][]own, workers)
+	for w := 0; w < workers; w++ {
+		for k := 0; k < swarms; k++ {
+			ih := r.Bytes(20)
+			binary.BigEndian.PutUint32(ih[:4], uint32(r.Intn(4)))
+			pk := append(append(r.Bytes(20), 0x1a, 0xe1), 10, byte(w), 0, byte(k))
+			o := own{hx(ih), hx(pk)}
+			owned[w] = append(owned[w], o)
+			storeOp(c, "st.put_leecher", map[string]string{"ih": o.ih, "pk": o.pk, "inst": "0"})
+		}
+	}
+	cutoff := strconv.FormatInt(t0-10e9, 10)
+	type rec struct{ line, obs string }
+	logs := make([][]rec, workers)
+	var gcLog []rec
+	var wg sync.WaitGroup
+	var done int32
+	rc := &recCtx{}
+	for w := 0; w < workers; w++ {
+		wg.Add(1)
+		go func(w int) {
+			defer wg.Done()
+			for i := 0; i < rounds; i++ {
+				for _, o := range owned[w] {
+					a := map[string]string{"ih": o.ih, "pk": o.pk, "inst": "0"}
+					l, ob := rc.run("st.del_leecher", a)
+					logs[w] = append(logs[w], rec{l, ob})
+					l, ob = rc.run("st.put_leecher", a)
+					logs[w] = append(logs[w], rec{l, ob})
+				}
+			}
+		}(w)
+	}
+	gcDone := make(chan struct{})
+	go func() {
+		defer close(gcDone)
+		for atomic.LoadInt32(&done) == 0 {
+			l, ob := rc.run("st.gc", map[string]string{"cutoff": cutoff, "inst": "0"})
+			gcLog = append(gcLog, rec{l, ob})
+		}
+	}()
+	wg.Wait()
+	atomic.StoreInt32(&done, 1)
+	<-gcDone
+	for w := range logs {
+		for _, e := range logs[w] {
+			c.Emit(e.line, e.obs)
+		}
+	}
+	if len(gcLog) > 50 {
+		gcLog = gcLog[:50] // they are all the same no-op
+	}
+	for _, e := range gcLog {
+		c.Emit(e.line, e.obs)
+	}
+	storeOp(c, "st.dump", map[string]string{})
+	storeOp(c, "st.totals", map[string]string{"inst": "0"})
+	c.Kind("gc-churn")
+}
+
 func runC04(c *Ctx) {
 	for _, l := range c.CorpusLines() {
 		op, a := parseOp(l)
@@ -381,6 +452,9 @@ func runC04(c *Ctx) {
 			kind = "redis"
 		}
 		contendedBatch(c, r, kind, i, 40)
+	}
+	for i := 0; i < c.N/4000+2; i++ {
+		gcChurn(c, r, i)
 	}
 	concurrentUDP(c, r, 16, c.N/40+10)
 }
